@@ -36,7 +36,7 @@ def main():
     for pid in sorted(os.listdir(base)):
         if re.match(r"C\d\d$", pid):
             for k in sorted(os.listdir(os.path.join(base, pid))):
-                if os.path.exists(os.path.join(base, pid, k, "patch.diff")) and (not sys.argv[1:] or pid in sys.argv[1:]):
+                if os.path.exists(os.path.join(base, pid, k, "patch.diff")) and (not sys.argv[1:] or pid in sys.argv[1:] or ("%s/%s" % (pid, k)) in sys.argv[1:]):
                     seeds.append((pid, k))
     path = os.path.join(base, "_matrix.json")
     res = json.load(open(path)) if os.path.exists(path) else {}
